@@ -163,13 +163,20 @@ def run(prog, rep, tier):
         give the same result term nl(<token of the argument>)"""
         def entry(self, E_, nf, ins):
             E_.gc_roots.add((nf.depth, 1))
+            self.saved = [s_.copy() for s_ in ins]
+            del ins[:]          # the body is not run here (nl() is analysed on its own by C04 rule N1)
 
         def exit(self, E_, nf, rets):
-            for i, (st, v) in enumerate(rets):
+            # nl() is pure: the state after the call is the state before it, whatever paths its body has
+            # (an if-chain, a table scanned with find, ..)
+            new = []
+            for st in self.saved:
                 a = E_.scalar(st, st.cells[(nf.depth, 1)]) if (nf.depth, 1) in st.cells else None
-                r = E_.scalar(st, v)
-                if r[0] == 'I' and a is not None and a[0] == 'F' and a[4] is not None:
-                    rets[i] = (st, E_.reg(mk_int(1, 59, 0, T('nl', token(a[4])))))      # range shown by N1
+                if a is not None and a[0] == 'F' and a[4] is not None:
+                    new.append((st, E_.reg(mk_int(1, 59, 0, T('nl', token(a[4]))))))      # range shown by N1
+                else:
+                    new.append((st, mk_int(1, 59)))
+            rets[:] = new
     E.hooks[f_nl['id']] = NlHook()
     # passing the guard nl(x) == nl(y), x != y, is remembered as a path tag (tags are intersected at
     # joins and states with different tags are never merged)
@@ -251,10 +258,12 @@ def _n5_pass(prog, f_ap, f_mod, f_nl, mkmsg, c_old, c_new, k_nl, used, lons):
     E = runner.make_engine(prog, K=16)
 
     class NlConst:
+        def entry(self, E_, nf, ins):
+            self.saved = [s_.copy() for s_ in ins]
+            del ins[:]          # the body is not run here (nl() is analysed on its own by C04 rule N1)
+
         def exit(self, E_, nf, rets_):
-            for i, (st, v) in enumerate(rets_):
-                rets_[i] = (st, A.const_int(k_nl))
-            del rets_[1:]
+            rets_[:] = [(s_, A.const_int(k_nl)) for s_ in self.saved]       # pure function: pre-state kept
     E.hooks[f_nl['id']] = NlConst()
 
     class ModHook:
